@@ -41,7 +41,7 @@ Variable R : nat.
 
 (* column scalings, one (column -> V) per mode *)
 Fixpoint call (cs : list (nat -> V)) (r : nat) : V := match cs with [] => v1 | c :: cs' => c r * call cs' r end.
-Fixpoint cex (n : nat) (cs : list (nat -> V)) (r : nat) : V :=
+Fixpoint cex (n : nat) (cs : list (nat -> V)) (r : nat) {struct cs} : V :=
   match cs with
   | [] => v1
   | c :: cs' => match n with O => call cs' r | S n' => c r * cex n' cs' r end
@@ -100,7 +100,7 @@ Proof.
   revert n; induction cs as [|c cs IH]; intros n [|A U1] [|B U2] i r H Hi Hr; cbn in H; try contradiction; [cbn; ring|].
   destruct H as (Hn & Hp & H). destruct i as [|x i]; cbn in Hi; [discriminate|].
   apply andb_true_iff in Hi as [Hx Hi]. apply Nat.ltb_lt in Hx.
-  cbn [kprod_ex cex]. destruct n as [|n]; [now apply kpr_coleq|].
+  destruct n as [|n]; cbn [kprod_ex cex]; [now apply kpr_coleq|].
   rewrite Hp, (IH n U1 U2 i r) by auto. ring.
 Qed.
 
@@ -122,7 +122,7 @@ Lemma gramh_coleq n cs : forall U1 U2 r t, coleq cs U1 U2 -> r < R -> t < R ->
   gramh n U2 r t = (cex n cs r * cex n cs t) * gramh n U1 r t.
 Proof.
   revert n; induction cs as [|c cs IH]; intros n [|A U1] [|B U2] r t H Hr Ht; cbn in H; try contradiction; [cbn; ring|].
-  destruct H as (Hn & Hp & H). cbn [gramhad cex]. destruct n as [|n]; [now apply grama_coleq|].
+  destruct H as (Hn & Hp & H). destruct n as [|n]; cbn [gramhad cex]; [now apply grama_coleq|].
   rewrite (gram_coleq c A B r t), (IH n U1 U2 r t) by auto. ring.
 Qed.
 
@@ -277,6 +277,71 @@ Proof.
   - intros i Hin. rewrite D1, D2 by auto. rewrite <- Hs1 in Hin.
     rewrite <- (update_models_correspond n cs cis (st_U st1) (st_U st2) (fun j r => mg A1 j r) (fun j r => mg A2 j r)
                   Hc Hi HX HnU NE1 NE2 Inj i Hin). reflexivity.
+Qed.
+
+(* ---- a sweep, k sweeps ---- *)
+Local Notation iter_1 := (als_iter v0 v1 vadd vmul mk1 solve1 scale1 R).
+Local Notation iter_2 := (als_iter v0 v1 vadd vmul mk2 solve2 scale2 R).
+
+(* contracts of both runs' oracles at every update of the sweep + uniqueness of run 1's solutions *)
+Fixpoint sweep_hyps (s : shape) (it : nat) (dims : list nat) (st1 st2 : als_state V) : Prop :=
+  match dims with
+  | [] => True
+  | n :: ds =>
+      contract1 s it st1 n /\ contract2 s it st2 n /\
+      weights_invertible (st_w (upd_1 it st1 n)) /\ weights_invertible (st_w (upd_2 it st2 n)) /\
+      y_injective n (st_U st1) /\
+      sweep_hyps s it ds (upd_1 it st1 n) (upd_2 it st2 n)
+  end.
+Fixpoint iter_hyps (s : shape) (k : nat) (dims : list nat) (st1 st2 : als_state V) : Prop :=
+  match k with
+  | O => True
+  | S k' => iter_hyps s k' dims st1 st2 /\ sweep_hyps s k' dims (iter_1 k' dims st1) (iter_2 k' dims st2)
+  end.
+
+Definition den_scaled (s : shape) (st1 st2 : als_state V) : Prop :=
+  forall i, inb s i = true -> sden st2 i = kappa * sden st1 i.
+
+Lemma sweep_equiv_gen s it dims : forall st1 st2,
+  related s st1 st2 -> (forall i, inb s i = true -> X2 i = kappa * X1 i) ->
+  sweep_hyps s it dims st1 st2 -> (dims = [] -> den_scaled s st1 st2) ->
+  related s (sweep_1 it dims st1) (sweep_2 it dims st2) /\ den_scaled s (sweep_1 it dims st1) (sweep_2 it dims st2).
+Proof.
+  induction dims as [|n ds IH]; intros st1 st2 Hrel HX Hh Hd; cbn [als_sweep fold_left].
+  - split; auto.
+  - destruct Hh as (C1 & C2 & I1 & I2 & Inj & Hh).
+    destruct (update_equiv s it st1 st2 n Hrel HX C1 C2 I1 I2 Inj) as [Hrel' Hden'].
+    apply IH; auto.
+Qed.
+
+Theorem sweep_equiv s it dims st1 st2 :
+  related s st1 st2 -> (forall i, inb s i = true -> X2 i = kappa * X1 i) ->
+  sweep_hyps s it dims st1 st2 -> dims <> [] ->
+  related s (sweep_1 it dims st1) (sweep_2 it dims st2) /\ den_scaled s (sweep_1 it dims st1) (sweep_2 it dims st2).
+Proof. intros Hrel HX Hh Hne. apply sweep_equiv_gen; auto. intros E. contradiction. Qed.
+
+Theorem iter_equiv s dims st1 st2 k :
+  related s st1 st2 -> (forall i, inb s i = true -> X2 i = kappa * X1 i) -> dims <> [] ->
+  iter_hyps s (S k) dims st1 st2 ->
+  related s (iter_1 (S k) dims st1) (iter_2 (S k) dims st2) /\ den_scaled s (iter_1 (S k) dims st1) (iter_2 (S k) dims st2).
+Proof.
+  intros Hrel HX Hne.
+  assert (G : forall k, iter_hyps s k dims st1 st2 -> related s (iter_1 k dims st1) (iter_2 k dims st2)).
+  { induction k as [|k0 IHk]; intros Hh; cbn [als_iter]; auto.
+    destruct Hh as [H1 H2]. exact (proj1 (sweep_equiv s k0 dims _ _ (IHk H1) HX H2 Hne)). }
+  intros [H1 H2]. cbn [als_iter]. apply sweep_equiv; auto.
+Qed.
+
+(* identical factor lists are related by the trivial column scaling *)
+Lemma coleq_refl (U : list mx) : coleq (map (fun _ => fun _ : nat => v1) U) U U.
+Proof. induction U as [|A U IH]; cbn; auto. repeat split; auto. intros; ring. Qed.
+Lemma inv_of_ones (U : list mx) : inv_of (map (fun _ => fun _ : nat => v1) U) (map (fun _ => fun _ : nat => v1) U).
+Proof. induction U as [|A U IH]; cbn; auto. split; auto. intros; ring. Qed.
+Lemma related_same_factors s st1 st2 : swf s st1 -> swf s st2 -> st_U st1 = st_U st2 -> related s st1 st2.
+Proof.
+  intros W1 W2 E. split; [exact W1|]. split; [exact W2|].
+  exists (map (fun _ => fun _ : nat => v1) (st_U st1)), (map (fun _ => fun _ : nat => v1) (st_U st1)).
+  rewrite <- E. split; [apply coleq_refl|]. split; apply inv_of_ones.
 Qed.
 
 End Scal.
